@@ -13,6 +13,20 @@
 
 std::vector<std::string> g_avoid;
 
+// AddressSanitizer flavour: the C sources of the library are instrumented (assembly is not); reports become SIGABRT, which
+// the fault classifier turns into C05.abort.  ASan cannot continue after a report, so a violation ends the worker at once
+// (no in-process gating or shrinking; the driver gates with fresh-process replays as usual).
+#if defined(__SANITIZE_ADDRESS__)
+static const bool g_asan = true;
+#else
+static const bool g_asan = false;
+#endif
+extern "C" __attribute__((used, visibility("default"))) const char *__asan_default_options()
+{
+        return "handle_segv=0:handle_sigbus=0:handle_abort=0:handle_sigill=0:handle_sigfpe=0:allow_user_segv_handler=1:detect_leaks=0:abort_on_error=1:"
+               "detect_stack_use_after_return=0:use_sigaltstack=0:print_summary=0";
+}
+
 extern const Profile *const g_profiles[];
 extern const int g_nprofiles;
 
@@ -337,6 +351,19 @@ static int cmd_run(int argc, char **argv)
                         g_trace = 1;
                 RunResult rr = execute(plan, &log1);
                 runs++;
+                if (rr.violated() && g_asan && rr.oracle == "C05.abort") {
+                        std::string path = outdir + strf("/viol_%s_%d_%llu.json", rr.oracle.c_str(), worker, (unsigned long long) index);
+                        Json rep = Json::obj();
+                        rep.set("property", "C05").set("oracle", rr.oracle).set("detail", rr.detail).set("plan", plan);
+                        write_file(path, rep.str());
+                        if (prop == "C05")
+                                printf("VIOL property=C05 oracle=%s index=%llu file=%s hash=%016llx detail=%s\n", rr.oracle.c_str(), (unsigned long long) index, path.c_str(), (unsigned long long) rr.hash, rr.detail.c_str());
+                        else
+                                printf("NOTE foreign-violation property=C05 oracle=%s index=%llu detail=(AddressSanitizer report) %s\n", rr.oracle.c_str(), (unsigned long long) index, rr.detail.c_str());
+                        printf("SUMMARY {\"worker\":%d,\"runs\":%llu,\"violations\":%d,\"foreign\":%d,\"counters\":{},\"samples\":[]}\n", worker, (unsigned long long) runs, prop == "C05" ? 1 : 0, prop == "C05" ? 0 : 1);
+                        fflush(stdout);
+                        _exit(prop == "C05" ? 1 : 0);
+                }
                 if (hashlog)
                         fprintf(hashlog, "%llu %016llx %s\n", (unsigned long long) index, (unsigned long long) rr.hash, rr.oracle.c_str());
                 events += rr.events;
